@@ -21,7 +21,7 @@ fn main() {
     match args[1].as_str() {
         "keys" => {
             let mut m = serde_json::Map::new();
-            for n in ["k1", "k2", "k3", "e1", "e2"] {
+            for n in ["k1", "k2", "k3", "k4", "e1", "e2"] {
                 let (s, pk) = keys::indep_pub(n).unwrap();
                 let nid = if s == 'k' { indep::secp_nid(&pk).unwrap() } else { indep::ed_nid(&pk).unwrap() };
                 let xy = if s == 'k' {
